@@ -67,3 +67,12 @@ Theorem c06_after_sprint_partial : forall E k acts c c' evs,
   Consistent E c' /\ wf_contact E c'.
 Proof. exact consistent_after_sprint. Qed.
 Print Assumptions c06_after_sprint_partial.
+
+(* ... and every membership change made during the sprint is reported: the contact_groups_changed events of the
+   sprint (a contact_refreshed replaces the membership) add up to the membership afterwards *)
+Theorem c06_sprint_events_sum_partial : forall E k acts c c' evs,
+  wf_contact E c -> kind_wf E k -> Forall (fun fm => mod_wf E (snd fm)) acts ->
+  run_sprint E k acts c = (c', evs) ->
+  group_events_sum evs (c_groups c) = c_groups c'.
+Proof. exact sprint_group_events. Qed.
+Print Assumptions c06_sprint_events_sum_partial.
